@@ -80,8 +80,17 @@ def triple(args):
         if bad:
             break
     # model comparison of the plain run
-    dp = subprocess.run([vlib.DRIVER], input=r1[1], stdout=subprocess.PIPE, text=True, timeout=1200) if binary == "h_world" else None
-    drv = vlib.parse_driver(dp.stdout.splitlines()) if dp else {"diff": [], "mon": [], "bad": [], "stats": {}, "hang": []}
+    # the plain run is also replayed through the deterministic Lean model of its domain (a function of the history alone)
+    if binary == "h_join_h3":
+        import resource
+        def lim():
+            resource.setrlimit(resource.RLIMIT_STACK, (resource.RLIM_INFINITY, resource.RLIM_INFINITY))
+        dp = subprocess.run([vlib.DRIVER], input=r1[1], stdout=subprocess.PIPE, text=True, timeout=1200, preexec_fn=lim)
+    else:
+        dp = subprocess.run([vlib.DRIVER], input=r1[1], stdout=subprocess.PIPE, text=True, timeout=1200)
+    drv = vlib.parse_driver(dp.stdout.splitlines())
+    # (the probe of known finding F2 is outside the model)
+    drv["diff"] = [d for d in drv["diff"] if "op=[unit_roundtrip]" not in d]
     return {"binary": binary, "tail": tail, "ledger": ledger, "rc": (r1[0], r2[0], r3[0]), "cases": len(b1), "lines": sum(len(v) for v in b1.values()),
             "bad": bad, "drv": drv}
 
@@ -115,7 +124,7 @@ def check(prop, tier, seed, t0):
                                          [f"property {prop}: {WHAT}",
                                           f"two runs of `{r['binary']} {' '.join(r['tail'])}` disagree on case {cid} ({name})",
                                           f"first differing line {k + 1}:", "  run A: " + (l1[k] if k < len(l1) else "<end>"), "  run B: " + (l2[k] if k < len(l2) else "<end>")],
-                                         ops, "world")
+                                         ops, {"h_world": "world", "h_saveload": "saveload", "h_changeset": "changeset", "h_join": "join", "h_join_h3": "join"}.get(r["binary"], "world"))
                 print(f"VIOLATION property={prop} replay={path}")
                 violations += 1; n += 1
             elif any(c != 0 for c in r["rc"]):
@@ -163,4 +172,14 @@ def check(prop, tier, seed, t0):
 
 
 def replay(prop, path):
+    text = open(path).read()
+    if "# domain saveload" in text:
+        import dom_saveload
+        return dom_saveload.replay("C14", path)
+    if "# domain changeset" in text:
+        import dom_changeset
+        return dom_changeset.replay("C16", path)
+    if "# domain join" in text:
+        import dom_join
+        return dom_join.replay("C06", path)
     return dom_world.replay("C04", path)
